@@ -216,6 +216,21 @@ def mutate_doc(rng, tree, vocab):
             return None, name
         extra = r.choice([ops[0], _with(ops[0], name=None), _with(ops[0], operation=A.OperationType.SUBSCRIPTION)])
         return apply(A.DocumentNode, 0, lambda h: _with(h, definitions=tuple(h.definitions) + (extra,))), name
+    if name == 'same_field_under_two_types':
+        # the very same field text under two type conditions: `... on Dog { lives } ... on Cat { lives }`; whether it is a
+        # conflict depends on the two definitions (and on whether the parent types can overlap), never on the text
+        pairs = getattr(vocab, 'pairs', None)
+        n = choose(A.FieldNode, lambda m: m.selection_set is not None)
+        if n is None or not pairs:
+            return None, name
+        t1, t2, fname, leaf = r.choice(pairs)
+        sub = None if leaf else A.SelectionSetNode(selections=(A.FieldNode(name=N('__typename')),))
+        fld = A.FieldNode(name=N(fname), selection_set=sub)
+
+        def frag(t):
+            return A.InlineFragmentNode(type_condition=A.NamedTypeNode(name=N(t)), selection_set=A.SelectionSetNode(selections=(fld,)))
+        extra = (frag(t1), frag(t2)) if r.random() < 0.8 else (frag(t1), fld)
+        return apply(A.FieldNode, ordinal(n), lambda h: _with(h, selection_set=_with(h.selection_set, selections=tuple(h.selection_set.selections) + extra))), name
     if name == 'dup_fragment':
         frs = [d for d in tree.definitions if isinstance(d, A.FragmentDefinitionNode)]
         if not frs:
@@ -227,7 +242,8 @@ def mutate_doc(rng, tree, vocab):
 MUTATORS = ['rename_field', 'collide_alias', 'drop_alias', 'drop_argument', 'dup_argument', 'unknown_argument', 'swap_value_kind',
             'drop_variable_definition', 'dup_variable_definition', 'change_variable_type', 'change_variable_default',
             'rename_variable_use', 'fragment_cycle', 'change_type_condition', 'unknown_spread', 'add_directive',
-            'drop_selection_set', 'add_selection_set', 'reorder_object_fields', 'dup_object_field', 'dup_operation', 'dup_fragment']
+            'drop_selection_set', 'add_selection_set', 'reorder_object_fields', 'dup_object_field', 'dup_operation', 'dup_fragment',
+            'same_field_under_two_types']
 
 
 def _with(node, **changes):
@@ -252,7 +268,25 @@ def vocabulary(schema):
                 v.update(m)
                 for f in m.values():
                     v.update(getattr(f, 'args', {}) or {})
-    return sorted(v)
+    out = Vocabulary(sorted(v))
+    # (type, other type, field name, is-leaf) for fields two composite types define under the same name without arguments
+    from graphql import get_named_type, is_interface_type, is_leaf_type, is_object_type
+    comp = [(n, t) for n, t in schema.type_map.items() if not n.startswith('__') and (is_object_type(t) or is_interface_type(t))]
+    for i, (n1, t1) in enumerate(comp):
+        for n2, t2 in comp[i + 1:]:
+            for fname, f1 in t1.fields.items():
+                f2 = t2.fields.get(fname)
+                if f2 is not None and not any(a.default is None and str(a.type).endswith('!') for a in list(f1.args.values()) + list(f2.args.values())):
+                    l1, l2 = is_leaf_type(get_named_type(f1.type)), is_leaf_type(get_named_type(f2.type))
+                    if l1 == l2:
+                        out.pairs.append((n1, n2, fname, l1))
+    return out
+
+
+class Vocabulary(list):
+    def __init__(self, names):
+        super().__init__(names)
+        self.pairs = []
 
 
 def add_descriptions(tree):
